@@ -195,7 +195,7 @@ theorem mkCp_small {v : Nat} (h1 : v < 128) (h0 : v ≠ 0) (h13 : v ≠ 13) :
 /-- what a replacement `r` for a reference that denotes the units `us` must look like:
     a single literal byte, or a complete (`&…;`) reference text that decodes to `us` whatever follows -/
 def ReplOk (r : List Char) (us : List DU) : Prop :=
-  (∃ ch, r = [ch] ∧ us = [.lit ch]) ∨
+  (∃ v, v < 128 ∧ r = [Char.ofNat v] ∧ us = [mkCp (numericFix v)]) ∨
   (2 ≤ r.length ∧ r.head? = some '&' ∧ ∀ attr t, dec attr 0 (r ++ t) = us ++ dec attr 0 t)
 
 /-- `html.EntitiesMap` is sound w.r.t. the HTML5 table -/
@@ -203,17 +203,22 @@ def EmOk (em : EntMap) : Prop :=
   ∀ nm r, em.lookup nm = some r → (∀ c ∈ nm, isAlnum c = true) →
     ∃ cps, lookupName (nm ++ [';']) = some cps ∧ ReplOk r (cps.map mkCp)
 
-/-- `html.TextRevEntitiesMap` maps a byte to a complete reference to that byte -/
+/-- a reverse map (`html.TextRevEntitiesMap`, `html.AttrRevEntitiesMap`) maps a byte to a complete reference that
+    denotes what a numeric reference to that byte denotes -/
 def RevOk (rev : RevMap) : Prop :=
-  ∀ ch q, rev.lookup ch = some q →
-    q.head? = some '&' ∧ ∀ attr t, dec attr 0 (q ++ t) = .lit ch :: dec attr 0 t
+  ∀ v q, v < 128 → rev.lookup (Char.ofNat v) = some q →
+    q.head? = some '&' ∧ ∀ attr t, dec attr 0 (q ++ t) = mkCp (numericFix v) :: dec attr 0 t
+
+/-- the two bytes that must not be written literally for a reference (NUL: the reference denotes U+FFFD, the byte
+    is dropped or replaced; CR: the byte is normalised to LF) are covered by the reverse map -/
+def RevCovers (rev : RevMap) : Prop :=
+  (rev.lookup (Char.ofNat 0)).isSome = true ∧ (rev.lookup (Char.ofNat 13)).isSome = true
 
 /-! ## first stage: `refBody` against `matchRef` -/
 
 theorem refBodyHex_spec (attr : Bool) (h r : List Char) (k : Nat)
     (hb : M.refBodyHex h = some (r, k)) (hsemi : M.headIs (fun c => c = ';') (h.drop (k - 2)) = true)
-    (hov : ¬ (2 ^ 63 ≤ numVal 16 (h.takeWhile isHex)))
-    (hctl : ¬ (numVal 16 (h.takeWhile isHex) = 0 ∨ numVal 16 (h.takeWhile isHex) = 13)) :
+    (hov : ¬ (2 ^ 63 ≤ numVal 16 (h.takeWhile isHex))) :
     ∃ us, matchRef attr ('#' :: 'x' :: h) = some (us, k + 1) ∧ ReplOk r us ∧
       (('#' :: 'x' :: h).drop k).head? = some ';' := by
   unfold Verif.Model.HtmlAttr.refBodyHex at hb
@@ -256,7 +261,7 @@ theorem refBodyHex_spec (attr : Bool) (h r : List Char) (k : Nat)
       have hmod : v % 256 = v := Nat.mod_eq_of_lt (by omega)
       rw [hmod] at hb
       left
-      exact ⟨Char.ofNat v, hb.1.symm, by rw [mkCp_small hlt' (by omega) (by omega)]⟩
+      exact ⟨v, hlt', hb.1.symm, rfl⟩
     · next hge =>
       simp only [Bool.or_eq_true, decide_eq_true_eq, not_or, Nat.not_lt] at hge
       simp only [Option.some.injEq, Prod.mk.injEq] at hb
@@ -288,7 +293,6 @@ theorem refBodyHex_pre (h r : List Char) (k : Nat) (hb : M.refBodyHex h = some (
 
 theorem refBodyHex_spec' (attr : Bool) (h r : List Char) (k : Nat)
     (hb : M.refBodyHex h = some (r, k)) (hsemi : M.headIs (fun c => c = ';') (('#' :: 'x' :: h).drop k) = true)
-    (hctl : numRefWith (fun v => v = 0 || v = 13) false ('#' :: 'x' :: h) = false)
     (hov : numRefWith (fun v => 2 ^ 63 ≤ v) true ('#' :: 'x' :: h) = false) :
     ∃ us, matchRef attr ('#' :: 'x' :: h) = some (us, k + 1) ∧ ReplOk r us ∧
       (('#' :: 'x' :: h).drop k).head? = some ';' := by
@@ -304,17 +308,12 @@ theorem refBodyHex_spec' (attr : Bool) (h r : List Char) (k : Nat)
     | nil => exact absurd hh hne
     | cons _ _ => rfl
   simp only [numRefWith, if_true, hemp, ht, semiLen_semi, decide_true, Bool.not_false, Bool.true_and,
-    Bool.or_eq_false_iff, decide_eq_false_iff_not] at hctl hov
-  apply refBodyHex_spec attr h r k hb hsemi
-  · exact hov
-  · intro h2; rcases h2 with h2 | h2
-    · exact hctl.1 h2
-    · exact hctl.2 h2
+    decide_eq_false_iff_not] at hov
+  exact refBodyHex_spec attr h r k hb hsemi hov
 
 theorem refBodyDec_spec (attr : Bool) (r0 r : List Char) (k : Nat)
     (hb : M.refBodyDec r0 = some (r, k)) (hsemi : M.headIs (fun c => c = ';') (('#' :: r0).drop k) = true)
-    (hx : r0.head? ≠ some 'x')
-    (hctl : numRefWith (fun v => v = 0 || v = 13) false ('#' :: r0) = false) :
+    (hx : r0.head? ≠ some 'x') :
     ∃ us, matchRef attr ('#' :: r0) = some (us, k + 1) ∧ ReplOk r us ∧
       (('#' :: r0).drop k).head? = some ';' := by
   unfold Verif.Model.HtmlAttr.refBodyDec at hb
@@ -345,19 +344,9 @@ theorem refBodyDec_spec (attr : Bool) (r0 r : List Char) (k : Nat)
         conv => lhs; rw [split_takeWhile isDigit r0, ht]
       have hm := matchRef_dec_semi attr (r0.takeWhile isDigit) t hne (takeWhile_all isDigit r0)
       rw [← hsplit, ← hv] at hm
-      have hctl' : ¬ (c = 0 ∨ c = 13) := by
-        cases r0 with
-        | nil => simp at hne
-        | cons x h =>
-          have hx' : x ≠ 'x' := by simpa using hx
-          simp only [numRefWith, hx', if_false, hemp, ht, semiLen_semi, decide_true, Bool.not_false, Bool.true_and,
-            ← hv, Bool.or_eq_false_iff, decide_eq_false_iff_not] at hctl
-          intro h2; rcases h2 with h2 | h2
-          · exact hctl.1 h2
-          · exact hctl.2 h2
       refine ⟨[mkCp (numericFix c)], ?_, ?_, ?_⟩
       · rw [hm]; congr 2; omega
-      · left; exact ⟨Char.ofNat c, hb.1.symm, by rw [mkCp_small hcond.2 (by omega) (by omega)]⟩
+      · left; exact ⟨c, hcond.2, hb.1.symm, rfl⟩
       · rw [hd, ht]; rfl
 
 theorem refBodyNamed_spec (em : EntMap) (hem : EmOk em) (attr : Bool) (s r : List Char) (k : Nat)
@@ -385,7 +374,6 @@ theorem refBodyNamed_spec (em : EntMap) (hem : EmOk em) (attr : Bool) (s r : Lis
 
 theorem refBody_spec (em : EntMap) (hem : EmOk em) (attr : Bool) (s r : List Char) (k : Nat)
     (hb : M.refBody em s = some (r, k)) (hsemi : M.headIs (fun c => c = ';') (s.drop k) = true)
-    (hctl : numRefWith (fun v => v = 0 || v = 13) false s = false)
     (hov : numRefWith (fun v => 2 ^ 63 ≤ v) true s = false) :
     ∃ us, matchRef attr s = some (us, k + 1) ∧ ReplOk r us ∧ (s.drop k).head? = some ';' := by
   unfold Verif.Model.HtmlAttr.refBody at hb
@@ -403,17 +391,16 @@ theorem refBody_spec (em : EntMap) (hem : EmOk em) (attr : Bool) (s r : List Cha
         by_cases hx : x = 'x'
         · subst hx
           simp only [if_true] at hb
-          exact refBodyHex_spec' attr h r k hb hsemi hctl hov
+          exact refBodyHex_spec' attr h r k hb hsemi hov
         · simp only [hx, if_false] at hb
-          exact refBodyDec_spec attr (x :: h) r k hb hsemi (by simpa using hx) hctl
+          exact refBodyDec_spec attr (x :: h) r k hb hsemi (by simpa using hx)
     · simp only [hc, if_false] at hb
       exact refBodyNamed_spec em hem attr (c :: r0) r k hb hsemi
 
 /-! ## second stage: `replAt` -/
 
-theorem replAt_spec (em : EntMap) (rev : RevMap) (hem : EmOk em) (hrev : RevOk rev) (attr : Bool)
-    (s r : List Char) (k : Nat) (h : M.replAt em rev s = some (r, k))
-    (hctl : numRefWith (fun v => v = 0 || v = 13) false s = false)
+theorem replAt_spec (em : EntMap) (rev : RevMap) (hem : EmOk em) (hrev : RevOk rev) (hcov : RevCovers rev)
+    (attr : Bool) (s r : List Char) (k : Nat) (h : M.replAt em rev s = some (r, k))
     (hov : numRefWith (fun v => 2 ^ 63 ≤ v) true s = false) :
     ∃ us, matchRef attr s = some (us, k) ∧ (s.drop (k - 1)).head? = some ';' ∧ 1 ≤ k ∧
       ((∃ ch, r = [ch] ∧ us = [.lit ch] ∧
@@ -427,13 +414,13 @@ theorem replAt_spec (em : EntMap) (rev : RevMap) (hem : EmOk em) (hrev : RevOk r
     simp only [hb] at h
     split at h
     · next hsemi =>
-      obtain ⟨us, hm, hok, hd⟩ := refBody_spec em hem attr s r0 k0 hb hsemi hctl hov
+      obtain ⟨us, hm, hok, hd⟩ := refBody_spec em hem attr s r0 k0 hb hsemi hov
       split at h
       · next c =>
-        -- single byte
-        have hus : us = [.lit c] := by
-          rcases hok with ⟨ch, hch, hu⟩ | ⟨hl, _⟩
-          · simp at hch; subst hch; exact hu
+        -- single byte `c = Char.ofNat v`, the reference denotes `mkCp (numericFix v)`
+        obtain ⟨v, hv, hcv, hus⟩ : ∃ v, v < 128 ∧ c = Char.ofNat v ∧ us = [mkCp (numericFix v)] := by
+          rcases hok with ⟨v, hv, hch, hu⟩ | ⟨hl, _⟩
+          · simp at hch; exact ⟨v, hv, hch, hu⟩
           · simp at hl
         split at h
         · next q hq =>
@@ -442,16 +429,25 @@ theorem replAt_spec (em : EntMap) (rev : RevMap) (hem : EmOk em) (hrev : RevOk r
           · simp only [Option.some.injEq, Prod.mk.injEq] at h
             obtain ⟨hr, hk⟩ := h
             subst hr; subst hk
-            have := hrev c q hq
+            have := hrev v q hv (hcv ▸ hq)
             refine ⟨us, hm, by simpa using hd, by omega, Or.inr ⟨this.1, ?_⟩⟩
             intro t; rw [hus]; exact this.2 attr t
-        · split at h
+        · next hnone =>
+          -- no reverse entry: the byte is neither NUL nor CR, the reference denotes the byte itself
+          have hv0 : v ≠ 0 := by
+            intro e; subst e; rw [hcv] at hnone
+            have := hcov.1; rw [hnone] at this; simp at this
+          have hv13 : v ≠ 13 := by
+            intro e; subst e; rw [hcv] at hnone
+            have := hcov.2; rw [hnone] at this; simp at this
+          have hus' : us = [.lit c] := by rw [hus, mkCp_small hv hv0 hv13, hcv]
+          split at h
           · simp at h
           · next hamp =>
             simp only [Option.some.injEq, Prod.mk.injEq] at h
             obtain ⟨hr, hk⟩ := h
             subst hr; subst hk
-            refine ⟨us, hm, by simpa using hd, by omega, Or.inl ⟨c, rfl, hus, ?_⟩⟩
+            refine ⟨us, hm, by simpa using hd, by omega, Or.inl ⟨c, rfl, hus', ?_⟩⟩
             intro hc
             simp only [hc, decide_true, Bool.true_and, Bool.not_eq_true] at hamp
             exact hamp
@@ -460,8 +456,8 @@ theorem replAt_spec (em : EntMap) (rev : RevMap) (hem : EmOk em) (hrev : RevOk r
         obtain ⟨hr, hk⟩ := h
         subst hr; subst hk
         refine ⟨us, hm, by simpa using hd, by omega, ?_⟩
-        rcases hok with ⟨ch, hch, _⟩ | ⟨_, hh, hdec⟩
-        · exact absurd hch (hne ch)
+        rcases hok with ⟨v, _, hch, _⟩ | ⟨_, hh, hdec⟩
+        · exact absurd hch (hne _)
         · exact Or.inr ⟨hh, hdec attr⟩
     · simp at h
 
@@ -581,9 +577,10 @@ theorem head_append_of_head {r x : List Char} {c : Char} (h : r.head? = some c) 
 
 /-- what `replEnt` writes for a text that starts with a non-reference character starts with one, too
     (unless the `glue` guard fires) -/
-theorem nonRef_replEnt (em : EntMap) (rev : RevMap) (hem : EmOk em) (hrev : RevOk rev) (u : List Char)
+theorem nonRef_replEnt (em : EntMap) (rev : RevMap) (hem : EmOk em) (hrev : RevOk rev) (hcov : RevCovers rev)
+    (u : List Char)
     (hu : NonRef u) (hg : glueFrom true u = false)
-    (hctl : anyAfterAmp ctlP u = false) (hov : anyAfterAmp ovP u = false) :
+    (hov : anyAfterAmp ovP u = false) :
     NonRef (M.replEnt em rev 0 u) := by
   cases u with
   | nil => intro d hd; simp [Verif.Model.HtmlAttr.replEnt] at hd
@@ -591,13 +588,12 @@ theorem nonRef_replEnt (em : EntMap) (rev : RevMap) (hem : EmOk em) (hrev : RevO
     have hd : isRefCh d = false := hu d rfl
     by_cases hda : d = '&'
     · subst hda
-      have hc := anyAfterAmp_cons _ _ hctl
       have ho := anyAfterAmp_cons _ _ hov
       simp only [Verif.Model.HtmlAttr.replEnt, decide_true, Bool.true_and]
       split
       · split
         · next r k hr =>
-          obtain ⟨us, hm, hsemi, hk, hcase⟩ := replAt_spec em rev hem hrev false u' r k hr hc.1 ho.1
+          obtain ⟨us, hm, hsemi, hk, hcase⟩ := replAt_spec em rev hem hrev hcov false u' r k hr ho.1
           have hg' : refToRefCh u' = false := by
             simp only [glueFrom, if_true, Bool.true_and, Bool.or_eq_false_iff] at hg
             exact hg.1
@@ -621,25 +617,25 @@ theorem nonRef_dropWhile (t : List Char) : NonRef (t.dropWhile isRefCh) := by
     rw [h] at hd; simp at hd; subst hd
     exact dropWhile_head isRefCh t c r h
 
-theorem replEnt_preserve (em : EntMap) (rev : RevMap) (hem : EmOk em) (hrev : RevOk rev) (attr : Bool) :
+theorem replEnt_preserve (em : EntMap) (rev : RevMap) (hem : EmOk em) (hrev : RevOk rev) (hcov : RevCovers rev)
+    (attr : Bool) :
     ∀ n (s : List Char), s.length ≤ n → glueFrom false s = false →
-      anyAfterAmp ctlP s = false → anyAfterAmp ovP s = false →
+      anyAfterAmp ovP s = false →
       dec attr 0 (M.replEnt em rev 0 s) = dec attr 0 s := by
   intro n
   induction n with
   | zero =>
-    intro s hs _ _ _
+    intro s hs _ _
     have : s = [] := List.eq_nil_of_length_eq_zero (by omega)
     subst this; rfl
   | succ n ih =>
-    intro s hs hg hctl hov
+    intro s hs hg hov
     cases s with
     | nil => rfl
     | cons c t =>
       have hlen : t.length ≤ n := by simpa using hs
       by_cases hca : c = '&'
       · subst hca
-        have hc := anyAfterAmp_cons _ _ hctl
         have ho := anyAfterAmp_cons _ _ hov
         have hg1 : glueFrom true t = false := by
           simpa [glueFrom] using hg
@@ -651,8 +647,7 @@ theorem replEnt_preserve (em : EntMap) (rev : RevMap) (hem : EmOk em) (hrev : Re
           rw [hsplit, glueFrom_prefix _ _ ha] at hg1; exact hg1
         have hdw : t.dropWhile isRefCh = t.drop (t.takeWhile isRefCh).length := (drop_takeWhile_length _ _).symm
         have hR : NonRef (M.replEnt em rev 0 (t.dropWhile isRefCh)) :=
-          nonRef_replEnt em rev hem hrev _ hu hgu
-            (by rw [hdw]; exact anyAfterAmp_drop _ _ _ hc.2) (by rw [hdw]; exact anyAfterAmp_drop _ _ _ ho.2)
+          nonRef_replEnt em rev hem hrev hcov _ hu hgu (by rw [hdw]; exact anyAfterAmp_drop _ _ _ ho.2)
         have hrepl : M.replEnt em rev 0 t = t.takeWhile isRefCh ++ M.replEnt em rev 0 (t.dropWhile isRefCh) := by
           conv => lhs; rw [hsplit]
           exact replEnt_prefix em rev _ _ (fun x hx => isRefCh_ne_amp (ha x hx))
@@ -679,7 +674,6 @@ theorem replEnt_preserve (em : EntMap) (rev : RevMap) (hem : EmOk em) (hrev : Re
           apply ih
           · simp; omega
           · exact glueFrom_drop t true k hg1
-          · exact anyAfterAmp_drop _ _ _ hc.2
           · exact anyAfterAmp_drop _ _ _ ho.2
         -- the `&` is kept
         have hkeep : dec attr 0 ('&' :: M.replEnt em rev 0 t) = dec attr 0 ('&' :: t) := by
@@ -696,7 +690,7 @@ theorem replEnt_preserve (em : EntMap) (rev : RevMap) (hem : EmOk em) (hrev : Re
         · split
           · next r k hr =>
             -- the reference is replaced by `r`
-            obtain ⟨us, hm, hsemi, hk, hcase⟩ := replAt_spec em rev hem hrev attr t r k hr hc.1 ho.1
+            obtain ⟨us, hm, hsemi, hk, hcase⟩ := replAt_spec em rev hem hrev hcov attr t r k hr ho.1
             rw [dec_ref attr _ us k hm, replEnt_drop]
             rcases hcase with ⟨ch, hr', hus, hamp⟩ | ⟨hh, hdec⟩
             · subst hr' hus
@@ -750,11 +744,9 @@ theorem replEnt_preserve (em : EntMap) (rev : RevMap) (hem : EmOk em) (hrev : Re
       · -- an ordinary byte
         have hg' : glueFrom false t = false := by
           simp only [glueFrom, hca, if_false, Bool.false_and] at hg; exact hg
-        have hc' : anyAfterAmp ctlP t = false := by
-          simp only [anyAfterAmp, hca, decide_false, Bool.false_and, Bool.false_or] at hctl; exact hctl
         have ho' : anyAfterAmp ovP t = false := by
           simp only [anyAfterAmp, hca, decide_false, Bool.false_and, Bool.false_or] at hov; exact hov
         simp only [Verif.Model.HtmlAttr.replEnt, hca, decide_false, Bool.false_and, Bool.false_eq_true, if_false]
-        rw [dec_lit attr c _ hca, dec_lit attr c _ hca, ih t hlen hg' hc' ho']
+        rw [dec_lit attr c _ hca, dec_lit attr c _ hca, ih t hlen hg' ho']
 
 end Verif.Proofs.HtmlRefs
